@@ -226,7 +226,7 @@ def _decompose_interaction_into_two_b_gates_ignoring_single_qubit_ops(
     x, y, z = kak_interaction_coefficients
     r = (np.sin(y) * np.cos(z)) ** 2
     r = max(0.0, r)  # Clamp out-of-range floating point error.
-    if r > 0.499999999999:
+    if r >= 0.5:  # only the exact degenerate point: b3 = pi, b2 irrelevant
         rb = [ops.ry(np.pi).on(b)]
     else:
         b1 = np.cos(y * 2) * np.cos(z * 2) / (1 - 2 * r)
